@@ -556,6 +556,7 @@ def r05_2(chk, tier):
 SCANNERS = [
     ('core', 'jsoncons/json_parser.hpp', None),
     ('core', 'jsoncons/source.hpp', None),
+    ('core', 'jsoncons/utility/unicode_traits.hpp', {'validate'}),
     ('csv', 'jsoncons_ext/csv/csv_parser.hpp', None),
     ('jsonpath', 'jsoncons_ext/jsonpath/jsonpath_parser.hpp', None),
     ('jsonpath', 'jsoncons_ext/jsonpath/json_location.hpp', None),
